@@ -1,3 +1,5 @@
+//go:build verif_c04
+
 package main
 
 // MCTS at the level of single search iterations (model correspondence for property C04, coq/Mcts.v).
